@@ -41,6 +41,7 @@ pub struct Deserializer<'de> {
 	s: &'de [u8],
 	pos: usize,
 	doc: Option<u8>,
+	void: bool,
 	yielded: usize,
 }
 impl<'de> Deserializer<'de> {
@@ -48,7 +49,7 @@ impl<'de> Deserializer<'de> {
 		unsafe { ghost::DESERIALIZERS += 1 };
 		ghost::note_parser(3);
 		ghost::record_text(s.as_bytes());
-		Deserializer { s: s.as_bytes(), pos: 0, doc: None, yielded: 0 }
+		Deserializer { s: s.as_bytes(), pos: 0, doc: None, void: false, yielded: 0 }
 	}
 }
 impl<'de> Iterator for Deserializer<'de> {
@@ -62,27 +63,30 @@ impl<'de> Iterator for Deserializer<'de> {
 			// from_str::<()>("") works); deserializing it visits `none`
 			if self.yielded == 0 {
 				self.yielded = 1;
-				return Some(Deserializer { s: &[], pos: 0, doc: Some(xtmodel::VOID), yielded: 0 });
+				return Some(Deserializer { s: &[], pos: 0, doc: None, void: true, yielded: 0 });
 			}
 			return None;
 		}
 		let t = self.s[self.pos];
 		self.pos += 1;
 		self.yielded += 1;
-		Some(Deserializer { s: &[], pos: 0, doc: Some(t), yielded: 0 })
+		Some(Deserializer { s: &[], pos: 0, doc: Some(t), void: false, yielded: 0 })
 	}
 }
 impl<'de> serde::Deserializer<'de> for Deserializer<'de> {
 	type Error = Error;
 	fn deserialize_any<V: serde::de::Visitor<'de>>(mut self, v: V) -> Result<V::Value> {
 		// used directly (not through the iterator): the first document of the text
+		if self.void {
+			return serde::Deserializer::deserialize_any(TokDe::<Error>::void(), v);
+		}
 		let t = match self.doc {
 			Some(t) => Some(t),
 			None => self.next().and_then(|d| d.doc),
 		};
 		match t {
 			Some(t) => serde::Deserializer::deserialize_any(TokDe::<Error>::new(t), v),
-			None => serde::Deserializer::deserialize_any(TokDe::<Error>::new(xtmodel::VOID), v),
+			None => serde::Deserializer::deserialize_any(TokDe::<Error>::void(), v),
 		}
 	}
 	serde::forward_to_deserialize_any! {
